@@ -690,3 +690,41 @@ def defined_name_case(ck, F, rule="NAME-CASE"):
                   "%s compares a stored defined name by exact spelling (%s): names that differ only in letter case are treated as different "
                   "here but share one entry in the evaluator's table (keyed by to_lowercase)" % (root, last), f, l, sample={"fn": root, "op": last})
     ck.ob(rule, "sites", n >= 5, "only %d comparisons of DefinedName.name found (anchor lost?)" % n)
+
+
+def orphan_names_skipped(ck, F, rule="NAMES"):
+    """A sheet-scoped defined name whose sheet no longer exists does not become a workbook-scoped one: in
+    Model::parse_defined_names the result of get_sheet_index_by_sheet_id is tested, and from its `None` arm the insertion
+    into the table of parsed names cannot be reached within the same iteration (the name is skipped).  Otherwise the orphan is
+    entered under scope None and shadows a global name of the same spelling."""
+    from mir import loop_header_of, place_proj
+    b = ck.need(F.one, "Model::parse_defined_names")
+    look = [(bi, t) for bi, t in b.calls() if (b.callee_q(t) or "").endswith("get_sheet_index_by_sheet_id")]
+    ins = [bi for bi, t in b.calls() if (b.callee_q(t) or "").endswith("HashMap<K, V, S>::insert") or (b.callee_q(t) or "").endswith("::insert")]
+    ck.ob(rule, "parse_defined_names|sheet lookup tested in the loop", len(look) == 1 and bool(ins),
+          "parse_defined_names does not test the result of get_sheet_index_by_sheet_id itself (it is resolved somewhere the loop cannot `continue` "
+          "from): a name scoped to a deleted sheet is entered with scope None, as if it were global", b.file, b.line)
+    if len(look) != 1 or not ins:
+        return
+    lb, lt = look[0]
+    hdr = loop_header_of(b, lb)
+    none_targets = []
+    for sb in range(len(b.blocks)):
+        info = b.switch_targets_by_variant(sb)
+        if not info:
+            continue
+        tt = b.term(sb)
+        tr = b.trace(tt["o"]) if tt["k"] == "switch" else {"kind": "?"}
+        if tr["kind"] == "rv" and tr["rv"]["k"] == "discr" and not place_proj(lt["dest"]) and tr["rv"]["p"]["l"] == lt["dest"]["l"]:
+            if "None" in info:
+                none_targets.append(info["None"])
+            elif "Some" in info and info.get(None) is not None:
+                none_targets.append(info[None])      # `if let Some(..)`: the other variant is the otherwise edge
+    ck.ob(rule, "parse_defined_names|lookup result matched", len(none_targets) >= 1, "the Option returned by get_sheet_index_by_sheet_id is never matched", *b.loc(lb))
+    for k, tN in enumerate(none_targets, 1):
+        reach = b.reachable_from(tN, avoid={hdr} if hdr is not None else ())
+        bad = [i for i in ins if i in reach or i == tN]
+        f, l = b.loc(tN)
+        ck.ob(rule, "parse_defined_names|unknown sheet id skips the name#%d" % k, not bad,
+              "parse_defined_names reaches the insertion of the parsed name from the branch where the sheet id was not found: a name scoped to a "
+              "deleted sheet is registered anyway (with scope None it shadows the global name of the same spelling)", f, l)
